@@ -18,7 +18,28 @@ pub const TERMINATORS: [&str; 7] = ["\n", "\n", "\n", "\r\n", "\r\n", "\r", "\n\
 
 pub const INVALID: [&[u8]; 9] = [b"\xff", b"\xc3", b"\xe2\x82", b"\x80", b"\xf0\x9f", b"\xed\xa0\x80", b"\xc0\xaf", b"\xf4\x90\x80\x80", b"\xe9"];
 
+/// line bodies whose CONTENT has a shape of its own: numbers, very long tokens, tokens that are prefixes of
+/// one another, whitespace-only lines, lines that look like unified-diff syntax
+const VALUEISH: [&str; 24] = [
+    "10", "9", "010", "-1", "1e3", "0x1f", "1 2 3", "1 2 3 4", "a", "ab", "abc", "abcd", "   ", "\t", "", " x", "-x", "+x", "@@ -1 +1 @@", "--- a", "+++ b", "\\ No newline at end of file",
+    "x ", "-- ",
+];
+
 pub fn line_body(rng: &mut Rng) -> String {
+    if rng.chance(1, 6) {
+        if rng.chance(1, 5) {
+            // one very long token (or two words sharing a very long prefix)
+            let n = *rng.pick(&[70usize, 130, 300]); // (longer ones only in dedicated families: character-level LCS tables grow with the square)
+            let mut s = "x".repeat(n);
+            match rng.below(3) {
+                0 => s.push('y'),
+                1 => s.push_str(" x"),
+                _ => {}
+            }
+            return s;
+        }
+        return (*rng.pick(&VALUEISH)).to_string();
+    }
     let mut s = String::new();
     let n = rng.below(6);
     let mut ws = rng.chance(1, 5);
@@ -60,7 +81,7 @@ pub fn sibling_char(rng: &mut Rng, c: char) -> char {
         b[j] = if rng.chance(1, 2) { b[j].wrapping_add(delta) } else { b[j].wrapping_sub(delta) };
         if let Ok(t) = std::str::from_utf8(&b[..len]) {
             let d = t.chars().next().unwrap();
-            if d != c && d.len_utf8() == len && d != '\n' && d != '\r' {
+            if d != c && d.len_utf8() == len && d != '\n' && d != '\r' && !d.is_ascii_uppercase() {
                 return d;
             }
         }
@@ -85,7 +106,9 @@ pub fn any_char(rng: &mut Rng) -> char {
             _ => rng.below(0x11_0000) as u32,
         };
         if let Some(c) = char::from_u32(v) {
-            if c != '\n' && c != '\r' {
+            // (no ASCII upper case: the generated texts never contain two tokens that differ in letter case only,
+            // which the checks over the case-insensitive user-defined text type rely on)
+            if c != '\n' && c != '\r' && !c.is_ascii_uppercase() {
                 return c;
             }
         }
